@@ -24,6 +24,9 @@ CHECKS = {
  "C06": ("fault_enumeration", "exhaustive fault enumeration: every failure kind at every node index of all short programs x detail levels x output modes, judged by a trace-grammar automaton and the package's JSON schemas",
          "The program alphabet holds one symbol per failure kind the property lists (processor exception, unresolvable parameter, type gate, undeclared context write, unknown parameter, probe without key, unresolvable processor, KeyboardInterrupt); all programs to length 2-3 (thorough 3-4) put each of them at every node index. Each traced run must leave pipeline_start, one SER per started node in canonical order with canonical upstream edges and correct statuses, exactly one pipeline_end whose status matches the call, schema-valid lines, shared ids, the original exception object, and a flushed and closed file (checked through /proc/self/fd).",
          "jsonschema Draft 2020-12 with the package's registry; RFC 3339 checked by the harness; reference failure points from mc/ref/interp.py (bound to the implementation by C01)", "3 C06"),
+ "C10": ("exploration", "bounded-exhaustive differential execution: every program run untraced and traced at each detail level; enumerated A-B-A histories compared modulo volatile fields",
+         "All programs of length 1-2 (thorough 1-3) over a 20-symbol alphabet incl. every failure kind, on empty and full contexts, are executed without a driver and with a JSONL driver at the detail levels; data, context, exception class/message/identity, failing node and processor log must coincide. Every (A, B) pair of a 7x6 menu (sweeps, failing and unconstructible pipelines) is run as A, B, A through the same Pipeline object and through a fresh one; the two traces of A must be equal after removing run id, timestamps, durations and seq.",
+         "volatile-field list as documented; programs longer than the bound and payloads outside the alphabet are not explored", "3 C10"),
 }
 NA = []
 def main():
